@@ -167,6 +167,7 @@ where
 
 fn main() {
     let ctx = Ctx::from_args("C03");
+    ndv_checks::warm_up_f32();
     let acc = ctx.parallel(|shard, nshards| {
         let mut acc = Acc::new();
         let mut t = 0u64;
